@@ -314,11 +314,13 @@ func (s *fragSource) Read(p []byte) (int, error) {
 type countSink struct {
 	buf   bytes.Buffer
 	calls int
+	limit int // bytes; 0 = no byte limit
 }
 
 func (s *countSink) Write(p []byte) (int, error) {
 	s.calls++
-	if s.calls > 5_000_000 {
+	if s.calls > 5_000_000 || (s.limit > 0 && s.buf.Len()+len(p) > s.limit) {
+		// far more than any frame of the input holds: a write loop that does not advance
 		panic("sink call budget exceeded (runaway)")
 	}
 	return s.buf.Write(p)
@@ -333,7 +335,7 @@ func produceFrame(o wopts, input []byte, d delivery) (frame []byte, err error) {
 			err = fmt.Errorf("panic: %v", r)
 		}
 	}()
-	sink := &countSink{}
+	sink := &countSink{limit: 4*len(input) + 1<<20}
 	w := lz4.NewWriter(sink)
 	if e := w.Apply(o.options(len(input))...); e != nil {
 		return nil, fmt.Errorf("Apply: %w", e)
